@@ -300,6 +300,69 @@ class Fn:
                 st.append(s)
         return seen
 
+    def _bool_root(self, bi, l):
+        """the user-level bool local a switch operand is a copy of (MIR tests `if x` as `_t = copy x; switchInt(move _t)`)"""
+        for _ in range(3):
+            nxt = None
+            for st in self.blocks[bi]["stmts"]:
+                if st["dst"] == [l] and st["rv"].get("r") == "use":
+                    pl = st["rv"]["o"][0].get("c") or st["rv"]["o"][0].get("m")
+                    if pl and len(pl) == 1:
+                        nxt = pl[0]
+            if nxt is None:
+                return l
+            l = nxt
+        return l
+
+    def correlated_path(self, start, kill, goal, via=None, skip_cleanup=True):
+        """Is there a CFG path from block `start` to a block in `goal` that avoids the blocks in `kill` (and, if
+        `via` is given, passes a block of `via`), when two tests of the *same, unmodified* bool local are required
+        to agree (the only path-sensitivity: `if c {a}` ... `if x || c {b}` correlates a with b)?
+        Returns the path (list of blocks) or None. Facts about a local die when the local is assigned."""
+        kill, goal = set(kill), set(goal)
+        via = set(via) if via is not None else None
+        assigned = {}
+        for bi, b in enumerate(self.blocks):
+            ds = {st["dst"][0] for st in b["stmts"]}
+            t = b["term"]
+            if t["t"] == "call" and t.get("dst"):
+                ds.add(t["dst"][0])
+            assigned[bi] = ds
+        start_state = (start, frozenset(), via is None or start in via)
+        seen = {start_state}
+        work = [(start_state, [start])]
+        while work:
+            (b, facts, passed), path = work.pop()
+            if b in kill:
+                continue
+            if b in goal and passed:
+                return path
+            blk = self.blocks[b]
+            t = blk["term"]
+            facts = frozenset((l, v) for l, v in facts if l not in assigned[b])
+            nxt = []
+            if t["t"] == "switch" and t.get("ty") == "bool" and op_local(t["o"]) is not None:
+                root = self._bool_root(b, op_local(t["o"]))
+                known = dict(facts).get(root)
+                zero = [tg for v, tg in t["targets"] if v == 0]
+                edges = [(0, zero[0])] if zero else []
+                edges.append((1, t["otherwise"]))
+                for v, tg in edges:
+                    if known is not None and known != v:
+                        continue
+                    nxt.append((tg, frozenset(set(facts) | {(root, v)})))
+            else:
+                for sx in self.succ(b):
+                    nxt.append((sx, facts))
+            for sx, fx in nxt:
+                if sx is None or (skip_cleanup and self.blocks[sx]["cleanup"]):
+                    continue
+                stt = (sx, fx, passed or (via is not None and sx in via))
+                if stt not in seen:
+                    seen.add(stt)
+                    work.append((stt, path + [sx]))
+        return None
+
     def preds(self):
         if self._pred is None:
             p = collections.defaultdict(list)
